@@ -124,6 +124,11 @@ def build():
     a(("mp-upper", table(1, 2, attrs='id="mp-upper"')))
     a(("short-para", "ab\n\ncd\n"))
     a(("image-plain", "[[File:A.png]]"))
+    a(("image-caption-500-br", "[[File:A.png|thumb|" + LONG * 3 + "<br/>" + LONG * 3 + "<br/>end]]\n"))
+    a(("absolute-nested", '<div style="position:relative">outer <div style="position:absolute;top:1px">inner abs</div></div>\n'))
+    a(("edit-link-q", "[http://wiki.example/w/index.php?action=edit edit] text\n"))
+    a(("train-template", "{|\n| [[File:BSicon STR.svg|20px]] || station\n|}\n"))
+    a(("navbox-inner", "{|\n|\n" + table(1, 2, attrs='id="navbox"') + "|}\n"))
     a(("table-in-caption-div", "[[File:A.png|thumb|cap <div>\n" + table(2, 2) + "</div>]]\n"))
     a(("table-in-caption", "[[File:A.png|thumb|cap\n" + table(1, 2) + "]]\n"))
     a(("nested-indent-tables", ":{|\n|-\n| outer\n:{|\n|-\n| inner || x\n|}\n|}\n"))
